@@ -107,6 +107,30 @@ theorem c20_gate_settings_are_fixed (env : Env ν) (st : Store ν) (i : Nat) (g 
   obtain ⟨g', h, ev⟩ := run_evolves env ops st i g hi
   exact ⟨g', h, ev.allow, ev.cb⟩
 
+/-- In an unauthorised genome no `mutate`, no `rollback_mutation` and no re-`add_gene` ever reports success. -/
+theorem c20_unauthorised_calls_never_succeed (env : Env ν) (st : Store ν) (i : Nat) (g : Genome ν)
+    (hi : st.genomes[i]? = some g) (hal : g.allow = false) (hna : NeverApproves env g) :
+    (∀ n v, (step env st (.mutate i n v)).2 ≠ .ret true) ∧
+    (∀ n, (step env st (.rollback i n)).2 ≠ .ret true) ∧
+    (∀ x, (findGene g.genes x.name).isSome = true → (step env st (.add i x)).2 = .ret false) := by
+  refine ⟨?_, ?_, ?_⟩
+  · intro n v
+    cases hm : mutate env st.calls g n v .user with
+    | raised k => rw [step_mutate_raised hi hm]; simp
+    | done g' b k =>
+      rw [step_mutate_done hi hm]
+      obtain ⟨-, -, -, hb⟩ := mutate_unauthorised hal hna hm
+      simp [hb]
+  · intro n
+    cases hm : rollback env st.calls g n with
+    | raised k => rw [step_rollback_raised hi hm]; simp
+    | done g' b k =>
+      rw [step_rollback_done hi hm]
+      obtain ⟨-, -, -, hb⟩ := rollback_unauthorised hal hna hm
+      simp [hb]
+  · intro x hx
+    rw [step_add hi, addGene_refused hal hx]
+
 /-- An operation changes at most the genome it is invoked on (no aliasing between parents, children and
     strangers); `replicate`, `new`, `express` and `get_value` change no existing genome at all. -/
 theorem c20_operations_touch_only_their_genome (env : Env ν) (st : Store ν) (op : Op ν) (j : Nat) (g : Genome ν)
@@ -288,6 +312,32 @@ theorem c20_unauthorised_child_equals_parent (env : Env ν) (st : Store ν) (hw 
     cases hret
     obtain ⟨h1, h2, h3⟩ := replicate_unauthorised hwp hal hna hr
     exact ⟨c, by simp, h1, by simp [canon, table, h1], h2, fun c' hc' => hna c' (h3 ▸ hc')⟩
+
+/-- **Parent and child, unauthorised, over time.**  Replicate an unauthorised genome (with any requested
+    mutations) and let parent and child live through any further history of re-adds, mutates, rollbacks,
+    expression changes, replications, on them and on anything else: at the end both still have exactly the
+    gene table, canonical list and hash the parent had before the replication. -/
+theorem c20_unauthorised_lineage_keeps_hash (env : Env ν) (st : Store ν) (hw : WF st) (i : Nat)
+    (muts : List (Nat × ν)) (inh : Bool) (p : Genome ν) (hi : st.genomes[i]? = some p) (hal : p.allow = false)
+    (hna : NeverApproves env p) (id : Nat) (hret : (step env st (.replicate i muts inh)).2 = .child id)
+    (ops : List (Op ν))
+    (hrp : ReAdds env i (step env st (.replicate i muts inh)).1 ops)
+    (hrc : ReAdds env id (step env st (.replicate i muts inh)).1 ops) :
+    ∃ p' c', (run env (step env st (.replicate i muts inh)).1 ops).genomes[i]? = some p' ∧
+      (run env (step env st (.replicate i muts inh)).1 ops).genomes[id]? = some c' ∧
+      p'.genes = p.genes ∧ c'.genes = p.genes ∧ canon p' = canon p ∧ canon c' = canon p ∧
+      ∀ {η : Type} (H : List (Nat × ν) → η), hash H p' = hash H p ∧ hash H c' = hash H p := by
+  obtain ⟨c, hc, hcg, -, hca, hcn⟩ :=
+    c20_unauthorised_child_equals_parent env st hw i muts inh p hi hal hna id hret
+  have hp1 := c20_replicate_preserves_parent env st i muts inh i p hi
+  obtain ⟨p', hp', hpg, -, hpc, -⟩ :=
+    c20_unauthorised_history_changes_nothing env _ i p ops hp1 hal hna hrp
+  obtain ⟨c', hc', hcg', -, hcc, -⟩ :=
+    c20_unauthorised_history_changes_nothing env _ id c ops hc hca hcn hrc
+  refine ⟨p', c', hp', hc', hpg, hcg'.trans hcg, hpc, ?_, ?_⟩
+  · simp [canon, table, hcg'.trans hcg]
+  · intro η H
+    exact ⟨by simp [hash, hpc], by simp [hash, canon, table, hcg'.trans hcg]⟩
 
 /-- **Refused replication mutations are logged as unapproved in the child**: every requested mutation that
     names a gene of the parent produces an entry in the child's log, and that entry is approved only if the
@@ -533,7 +583,7 @@ theorem c20_canon_eq_iff_same_stored_values (g₁ g₂ : Genome ν) (hw₁ : WFG
 /-- Outside the property as read in DESIGN.md ("re-adding"), stated so that it is not overlooked: with mutations
     disabled `add_gene` of a NEW name is accepted, appends the gene (changing the hash) and leaves every
     existing gene alone. -/
-theorem c20_fresh_add_extends_table (g : Genome ν) (x : Gene ν) (hfresh : findGene g.genes x.name = none) :
+theorem c20_fresh_add_appends_gene (g : Genome ν) (x : Gene ν) (hfresh : findGene g.genes x.name = none) :
     (addGene g x).2 = true ∧ (addGene g x).1.genes = g.genes ++ [x] ∧ (addGene g x).1.log = g.log := by
   have hn := findGene_none_iff.mp hfresh
   unfold addGene
@@ -639,7 +689,17 @@ example : parent.allow = false ∧ NeverApproves envNo parent ∧
     (step envNo st0 (.replicate 0 [(0, 7), (1, 5)] false)).2 = .child 1 :=
   ⟨rfl, fun _ _ _ _ _ _ _ => by simp [envNo], by decide⟩
 
-/-- `c20_fresh_add_extends_table`: a NEW name is accepted on an immutable genome -/
+/-- `c20_unauthorised_lineage_keeps_hash`: a further history on parent (0), child (1) and a grandchild meets
+    the `ReAdds` hypotheses for both -/
+example :
+    ReAdds envNo 0 (step envNo st0 (.replicate 0 [(0, 7)] true)).1
+      [.mutate 1 0 7, .rollback 0 0, .replicate 1 [(1, 5)] false, .mutate 2 1 5, .setExpr 0 1 .silenced] ∧
+    ReAdds envNo 1 (step envNo st0 (.replicate 0 [(0, 7)] true)).1
+      [.mutate 1 0 7, .rollback 0 0, .replicate 1 [(1, 5)] false, .mutate 2 1 5, .setExpr 0 1 .silenced] := by
+  constructor <;>
+    (simp only [ReAdds, and_true]; refine ⟨?_, ?_, ?_, ?_, ?_⟩ <;> intro x g h <;> cases h)
+
+/-- `c20_fresh_add_appends_gene`: a NEW name is accepted on an immutable genome -/
 example : (addGene parent ⟨5, 0, .structural, false, .normal⟩).2 = true := by decide
 
 end Examples
